@@ -46,6 +46,12 @@ def run_canary(c, keep=False, verbose=True):
         hit = [l for l in fired if c.get('expect', '') in l]
         compiled = 'fact extraction failed' not in out
         ok = bool(hit) and compiled
+        if c.get('benign'):
+            # behaviour-preserving edit: the check must stay silent
+            ok = compiled and not fired and rc == 0
+            if verbose:
+                print('%s %-6s %-40s %s' % ('SILENT' if ok else ('NOCOMPILE' if not compiled else 'FALSE-ALARM'), c['property'], c['id'], (fired[0] if fired else '')[:150]))
+            return ok, out
         if verbose:
             print('%s %-6s %-40s %s' % ('CAUGHT' if ok else ('NOCOMPILE' if not compiled else 'MISSED'), c['property'], c['id'],
                                         (hit[0].split('#', 1)[1] if hit else (fired[0] if fired else out.strip().splitlines()[-1]))[:150]))
